@@ -26,7 +26,7 @@ import (
 
 type faultVec struct {
 	Sink  string `json:"sink"`  // stl | 3mf | dxf | svg
-	Mode  string `json:"mode"`  // none | fsize | devfull | nodir | underfile
+	Mode  string `json:"mode"`  // none | fsize | devfull | nodir | underfile | dangling | emptypath
 	Limit int64  `json:"limit"` // RLIMIT_FSIZE in bytes (mode fsize)
 	Items int    `json:"items"`
 	Batch int    `json:"batch"`
@@ -218,6 +218,13 @@ func runFault(v faultVec, dir string, watchdog time.Duration) faultObs {
 		path = "/dev/full"
 	case "nodir":
 		path = filepath.Join(dir, "no-such-dir", "out."+v.Sink)
+	case "dangling":
+		// a symbolic link in an existing directory whose target directory does not exist
+		path = filepath.Join(dir, "dangling."+v.Sink)
+		os.Remove(path)
+		os.Symlink(filepath.Join(dir, "gone", "away", "out."+v.Sink), path)
+	case "emptypath":
+		path = ""
 	case "underfile":
 		f := filepath.Join(dir, "plainfile")
 		os.WriteFile(f, []byte("x"), 0644)
@@ -464,6 +471,20 @@ func c12Goroutines(args []string) error {
 				time.Sleep(2600 * time.Millisecond)
 			}
 			render.ToTriangles(sp, render.NewMarchingCubesUniform(9))
+		}},
+		// renders of very different sizes in turn (a pool sized to the render must not leave the previous one behind)
+		{"history/uniform 3,40,5,24 cells in turn", func(i int) {
+			render.ToTriangles(sp, render.NewMarchingCubesUniform([]int{3, 40, 5, 24}[i%4]))
+		}},
+		{"history/uniform 4 cells,octree 30,uniform 30", func(i int) {
+			switch i % 3 {
+			case 0:
+				render.ToTriangles(sp, render.NewMarchingCubesUniform(4))
+			case 1:
+				render.ToTriangles(sp, render.NewMarchingCubesOctree(30))
+			default:
+				render.ToTriangles(sp, render.NewMarchingCubesUniform(30))
+			}
 		}},
 		// histories: a failed render followed by a good one, over and over (state left behind by the failure -
 		// a lock still held, a goroutine still parked - shows in the NEXT render or in the count)
